@@ -65,7 +65,9 @@ def natural_range(atom):
         return IntSet.range(0, MAXLEN)
     if k == "mod":
         return IntSet.range(0, atom[2] - 1)
-    if k in ("wrap", "opqint", "app", "sext", "lz", "disc", "fdiv", "cnt"):
+    if k in ("wrap", "opqint", "app", "sext", "lz", "disc", "fdiv", "cnt", "hexval", "parsed", "val", "b2i"):
+        return IntSet.range(atom[-2], atom[-1])
+    if len(atom) >= 3 and isinstance(atom[-1], (int, float)) and isinstance(atom[-2], (int, float)) and not isinstance(atom[-1], bool):
         return IntSet.range(atom[-2], atom[-1])
     return IntSet.top()
 
@@ -174,6 +176,17 @@ class St:
                         if not rl.is_empty() and rl.min() > 0:
                             return False
             for f in self.pc.facts:
+                r = _ratio(lin, f)
+                if r is not None:
+                    p_, q_, D = r          # q*lin = p*f + D  (p,q > 0):  lin <= floor(D/q)
+                    if D // q_ <= 0:
+                        return True
+                r = _ratio(lin, -f)
+                if r is not None:
+                    p_, q_, D = r          # q*lin = p*(-f) + D >= D  :  lin >= ceil(D/q)
+                    if -((-D) // q_) >= 1:
+                        return False
+            for f in self.pc.facts:
                 d = f - lin  # f <= 0 known; lin = f - d ; if d >= 0 const then lin <= f <= 0
                 if d.is_const() and d.c >= 0:
                     return True
@@ -278,6 +291,26 @@ class St:
             s.pc.opq[cond[1]] = truth
             return [s]
         raise Unanalysable("assume %r" % (cond,))
+
+
+def _ratio(lin, f):
+    """(p, q, D) with q*lin == p*f + D, p,q positive integers, if lin and f are parallel"""
+    if not lin.terms or len(lin.terms) != len(f.terms):
+        return None
+    from fractions import Fraction
+    r = None
+    for (a, k), (b, m) in zip(lin.terms, f.terms):
+        if a != b or m == 0:
+            return None
+        x = Fraction(k, m)
+        if x <= 0:
+            return None
+        if r is None:
+            r = x
+        elif r != x:
+            return None
+    p_, q_ = r.numerator, r.denominator
+    return p_, q_, q_ * lin.c - p_ * f.c
 
 
 # ------------------------------------------------------------------------------------------------
@@ -577,6 +610,8 @@ class Interp:
         if e == "deref":
             if isinstance(v, VRef):
                 return self.read_ref(st, v)
+            if isinstance(v, VBox):
+                return v.inner
             if isinstance(v, (VSlice, VStr, VOpaque, VSeq, VList, VElems)):
                 return v
             raise Unanalysable("deref of %r" % (v,))
@@ -743,6 +778,8 @@ class Interp:
             if k == "ref" and self.f.types[t["ty"]]["k"] == "str":
                 return VStr(("cstr", bytes(c["bytes"])))
             return VSlice(("cbytes", bytes(c["bytes"])), Lin.const(0), Lin.const(len(c["bytes"])))
+        if "tree" in c:
+            return self.tree_val(c["tree"])
         if "zst" in c:
             if k == "tuple":
                 return UNIT
@@ -750,6 +787,30 @@ class Interp:
                 return VClosure(t["def"], ())
             return VOpaque("zst:" + t["text"], c["ty"])
         return VOpaque("const:" + str(c.get("opaque") or c.get("uneval")), c["ty"])
+
+    def tree_val(self, node):
+        if "ref" in node:
+            return VBox(self.tree_val(node["ref"]))
+        if "int" in node:
+            t = self.f.types[node["ty"]]
+            if t["k"] == "bool":
+                return VBool(bool(node["int"]))
+            if t["k"] == "char":
+                return mk_const(node["int"], 32, False)
+            return mk_const(node["int"], t["w"], t["s"])
+        if "zst" in node:
+            return UNIT
+        if "tree" in node:
+            return self.tree_val(node["tree"])
+        t = self.f.types[node["ty"]]
+        fields = [self.tree_val(x) for x in node["fields"]]
+        if t["k"] == "adt":
+            return VAdt(t["def"], node["variant"] if node["variant"] is not None else 0, fields)
+        if t["k"] == "tuple":
+            return VTuple(fields) if fields else UNIT
+        if t["k"] == "array":
+            return VList(fields)
+        raise Unanalysable("constant of type " + t["text"])
 
     def operand(self, st, frame, o):
         if "copy" in o:
@@ -771,7 +832,7 @@ class Interp:
                 inner = dict(p)
                 inner = {"l": p["l"], "p": p["p"][:-1]}
                 v = self.read_place(st, frame, inner)
-                if isinstance(v, (VSlice, VStr)):
+                if isinstance(v, (VSlice, VStr, VBox)):
                     return v
                 if isinstance(v, VRef):
                     return VRef(v.cell, v.path, rv["mut"])
@@ -1281,13 +1342,61 @@ class Interp:
             params = body["locals"][1:1 + body["arg_count"]]
         if not params:
             return False
+        has_slice = False
         for p in params:
-            if self.f.types[p]["k"] not in ("int", "bool", "float", "char"):
-                return False
+            t = self.f.types[p]
+            if t["k"] in ("int", "bool", "float", "char"):
+                continue
+            if t["k"] == "ref" and not t["mut"] and self.f.types[t["ty"]]["k"] == "slice":
+                et = self.f.types[self.f.types[t["ty"]]["ty"]]
+                if et["k"] == "int" and et["w"] == 8:
+                    has_slice = True
+                    continue
+            return False
         rt = self.f.types[body["locals"][0]]["text"]
         if "&" in rt or "nom::" in rt or "IResult" in rt:
             return False
+        if has_slice:
+            return self.pure_body(body, set())
         return True
+
+    def pure_body(self, body, seen):
+        """no calls into nom and no calls to local functions that are not themselves pure: the
+        function is a table / fold over its arguments"""
+        cache = self.__dict__.setdefault("_pure_cache", {})
+        d = body["def"]
+        if d in cache:
+            return cache[d]
+        if d in seen:
+            return False
+        seen = seen | {d}
+        ok = True
+        for blk in body["blocks"]:
+            if blk["cleanup"]:
+                continue
+            t = blk["term"]
+            if "call" not in t:
+                continue
+            c = t["call"]
+            if "def" not in c:
+                ok = False
+                break
+            r = c.get("resolved") or c
+            if r.get("krate") == "nom" or c.get("krate") == "nom":
+                ok = False
+                break
+            if r.get("local") and r["def"] in self.f.bodies:
+                if not self.pure_body(self.f.bodies[r["def"]], seen):
+                    ok = False
+                    break
+            # closures created here and passed to core iterators
+            for a in t["args"]:
+                if "const" in a and "zst" in a["const"]:
+                    tt = self.f.types[a["const"]["ty"]]
+                    if tt["k"] == "closure" and tt["def"] in self.f.bodies and not self.pure_body(self.f.bodies[tt["def"]], seen):
+                        ok = False
+        cache[d] = ok
+        return ok
 
     def call(self, st, body, frame, bb, t):
         callee = t["call"]
@@ -1322,6 +1431,7 @@ class Interp:
     def call_local(self, st, b, args, ctx, target=None):
         if not self.inline_leaves and self.is_leaf(b):
             args = [self.norm(st, a) for a in args]
+            st.event("leaf", b["def"], tuple(valkey(a) for a in args))
             self.leaf_calls.setdefault(b["def"], []).append((tuple(args), st))
             return [(st, self.leaf_app(st, b, args))]
         genv = None
@@ -1524,6 +1634,9 @@ class Interp:
         if t["k"] == "float":
             atoms.append(None)
             return VFloat(("farg", name))
+        if t["k"] == "ref" and self.f.types[t["ty"]]["k"] == "slice":
+            atoms.append(None)
+            return VSlice("$" + name, Lin.const(0), Lin.atom(("len", "$" + name)))
         raise Unanalysable("leaf parameter type " + t["text"])
 
     def project_val(self, st, v, proj):
